@@ -60,7 +60,7 @@ restrict / reorder the term dictionary of a step (what `select_columns` / `drop_
 `none` when a requested key is missing (KeyError in the code) -/
 def setTermKeys (near : Near) (keys : List String) (isSelect : Bool := false) : Option Near :=
   match near with
-  | .table n ts => if subset keys ts then some (.table n keys) else none
+  | .table n ts => if keys.isEmpty then some near else if subset keys ts then some (.table n keys) else none
   | .cte n => some (.cte n)
   | .unary n ts agg sub sc sf mg deps key =>
     match ts with
@@ -70,14 +70,18 @@ def setTermKeys (near : Near) (keys : List String) (isSelect : Bool := false) : 
       else if keys.isEmpty then some (.unary n none agg sub sc sf mg deps key)
       else none
     | some ts =>
-      if subset keys (ts.map (·.1)) then
+      -- fix D36: nothing requested → the step keeps its own terms
+      if keys.isEmpty then some near
+      else if subset keys (ts.map (·.1)) then
         some (.unary n (some (keys.filterMap (fun k => (lookupLast ts k).map (fun t => (k, t))))) agg sub sc sf mg deps key)
       else none
   | .join n ts l lc ln r rc rn jt oa ob key =>
-    if subset keys (ts.map (·.1)) then
+    if keys.isEmpty then some near
+    else if subset keys (ts.map (·.1)) then
       some (.join n (keys.filterMap (fun k => (lookupLast ts k).map (fun t => (k, t)))) l lc ln r rc rn jt oa ob key)
     else none
-  | .union n ts l r cs key => if subset keys ts then some (.union n keys l r cs key) else none
+  | .union n ts l r cs key =>
+    if keys.isEmpty then some near else if subset keys ts then some (.union n keys l r cs key) else none
 
 /-! ### the translation -/
 
